@@ -4,7 +4,8 @@
 //!   case <i> coll=<d0>/<d1>/… base=<b> via=create|update threads=<t> how=kill|abort|exit q=<hashes>
 //!        d_i = comma separated hashes (`-` = empty dataset); the first <b> datasets are indexed
 //!        by a clean build before the build under test starts (via=update: the build under test is
-//!        `open` + `update(collection)`, otherwise `create(dir, collection)` on the same directory)
+//!        `open` + `update(collection)`, otherwise `create(dir, collection)` on the same directory);
+//!        optional fs=shm: scratch directory on tmpfs instead of the system temp dir
 //!   crash <n>        run the build in a child process that kills itself at hook point n of that run;
 //!                    answer: the durable state left behind (threads=1), or the verdict of the
 //!                    marker invariants on it (threads>1, where the interleaving is not determined)
@@ -75,15 +76,19 @@ fn rand_query(r: &mut Rng, c: &[Vec<u64>]) -> Vec<u64> {
     q
 }
 
-fn header(o: &mut Out, c: &[Vec<u64>], base: usize, via: &str, threads: usize, how: &str, q: &[u64]) {
+/// `disk`: scratch directory on the real filesystem (system temp dir); otherwise on tmpfs
+/// (/dev/shm, where fsync costs nothing — the runs kill the process, not the kernel, so what survives
+/// is the page cache either way; the quick tier keeps a share of its cases on the real filesystem)
+fn header(o: &mut Out, c: &[Vec<u64>], base: usize, via: &str, threads: usize, how: &str, q: &[u64], disk: bool) {
     o.case(&format!(
-        "coll={} base={} via={} threads={} how={} q={}",
+        "coll={} base={} via={} threads={} how={} q={} fs={}",
         show_coll(c),
         base,
         via,
         threads,
         how,
-        show_nats(q.iter().copied())
+        show_nats(q.iter().copied()),
+        if disk { "disk" } else { "shm" }
     ));
 }
 
@@ -115,13 +120,13 @@ fn gen(a: &Args) {
         };
         let total = points(&c, base);
         for n in 0..=total {
-            header(&mut o, &c, base, via, 1, hows[(n + ci) % 3], &q);
+            header(&mut o, &c, base, via, 1, hows[(n + ci) % 3], &q, if thorough { ci % 2 == 0 } else { ci == 0 });
             o.op(&format!("crash {}", n));
             o.op(if n % 4 == 3 { "resumec" } else { "resume" });
         }
         // kills while compaction is running
         for d in [0u64, 200, 2000] {
-            header(&mut o, &c, base, via, 1, "kill", &q);
+            header(&mut o, &c, base, via, 1, "kill", &q, ci % 2 == 0);
             o.op(&format!("crashc {}", d));
             o.op("resume");
         }
@@ -135,11 +140,11 @@ fn gen(a: &Args) {
         let q = rand_query(&mut r, &c);
         let (base, via) = match i % 3 {
             0 => (0, "create"),
-            1 => (r.range(1, nd as u64 - 1) as usize, "update"),
+            1 => (r.range(0, nd as u64 - 1) as usize, "update"),
             _ => (r.range(0, nd as u64 - 1) as usize, "create"),
         };
         let total = points(&c, base) as u64;
-        header(&mut o, &c, base, via, 1, hows[i % 3], &q);
+        header(&mut o, &c, base, via, 1, hows[i % 3], &q, i % 4 == 0);
         let rounds = r.range(2, 4);
         for _ in 0..rounds {
             // later runs have fewer points: bias towards small numbers, sometimes beyond the end
@@ -161,7 +166,7 @@ fn gen(a: &Args) {
         let q = rand_query(&mut r, &c);
         let (base, via) = if i % 2 == 0 { (0, "create") } else { (r.range(1, nd as u64 - 1) as usize, "update") };
         let total = points(&c, base) as u64;
-        header(&mut o, &c, base, via, 4, hows[i % 3], &q);
+        header(&mut o, &c, base, via, 4, hows[i % 3], &q, i % 4 == 0);
         o.op(&format!("crash {}", r.below(total)));
         if r.chance(1, 2) {
             o.op(&format!("crash {}", r.below(total) / 2));
@@ -176,7 +181,7 @@ fn gen(a: &Args) {
         let c = rand_coll(&mut r, nd, 8, 12);
         let q = rand_query(&mut r, &c);
         let (base, via) = if i % 4 == 3 { (r.range(1, nd as u64) as usize - 1, "update") } else { (0, "create") };
-        header(&mut o, &c, base, via, 1, "kill", &q);
+        header(&mut o, &c, base, via, 1, "kill", &q, i % 4 == 0);
         o.op("resume");
         let k = r.range(1, 3);
         for _ in 0..k {
@@ -465,7 +470,12 @@ fn setup(st: &mut St, ws: &[&str]) {
             _ => {}
         }
     }
-    let tmp = scratch_dir();
+    let shm = std::path::Path::new("/dev/shm");
+    let tmp = if ws.iter().any(|w| *w == "fs=shm") && shm.is_dir() {
+        tempfile::Builder::new().prefix("verif-idx-").tempdir_in(shm).unwrap()
+    } else {
+        scratch_dir()
+    };
     st.sig_dir = tmp.path().join("sigs");
     st.idx = tmp.path().join("index");
     st.sigs = st
